@@ -12,6 +12,7 @@ Search    : the same crash enumeration with the property's own predicate on the 
 from __future__ import annotations
 
 import builtins
+import re
 import json
 import os
 import shutil
@@ -275,6 +276,128 @@ def _caller_payload(gen: int) -> str:
     return _CPAY[key]
 
 
+SYSCALLS = "openat,open,creat,write,pwrite64,writev,rename,renameat,renameat2,unlink,unlinkat,link,linkat,truncate,ftruncate,close"
+
+
+def run_write_strace(d: Path, gen: int, when):
+    """Syscall-level crash: run the real writer in a forked child traced by `strace -p`, which delivers SIGKILL on
+    entry of the i-th invocation of system call `name` for when = (name, i) (strace counts invocations per system
+    call); when = None: trace only. Returns (list of file-related system calls made, end marker).
+    Independent of which Python API the implementation uses to touch the files."""
+    import subprocess
+
+    r, w = os.pipe()
+    pid = os.fork()
+    if pid == 0:
+        try:
+            os.close(r)
+            os.chdir(d)
+            os.kill(os.getpid(), signal.SIGSTOP)  # wait for the tracer
+            import torchtree.core.parameter_utils as pu
+
+            try:
+                if WRITER[0] == "save_parameters":
+                    pu.save_parameters(CK, params(gen))
+                else:
+                    _caller_write(WRITER[0], gen)
+                os.write(w, b"END")
+            except BaseException as e:  # noqa: BLE001
+                os.write(w, f"EXC:{type(e).__name__}".encode())
+        finally:
+            os._exit(0)
+    os.close(w)
+    os.waitpid(pid, os.WUNTRACED)
+    log = d.parent / f"strace-{pid}.log"
+    cmd = ["strace", "-q", "-p", str(pid), "-e", "trace=" + SYSCALLS, "-o", str(log)]
+    if when is not None:
+        cmd += ["-e", f"inject={when[0]}:signal=SIGKILL:when={when[1]}"]
+    tr = subprocess.Popen(cmd, stderr=subprocess.PIPE, text=True)
+    # strace announces the attachment on stderr unless -q: poll /proc for the tracer instead
+    import time as _t
+
+    for _ in range(400):
+        try:
+            st = open(f"/proc/{pid}/status").read()
+            if "TracerPid:\t0" not in st:
+                break
+        except OSError:
+            break
+        _t.sleep(0.005)
+    os.kill(pid, signal.SIGCONT)
+    data = b""
+    while True:
+        chunk = os.read(r, 4096)
+        if not chunk:
+            break
+        data += chunk
+    os.close(r)
+    try:
+        os.waitpid(pid, 0)
+    except ChildProcessError:
+        pass
+    try:
+        tr.wait(timeout=20)
+    except subprocess.TimeoutExpired:
+        tr.kill()
+    calls = []
+    if log.exists():
+        for l in log.read_text().splitlines():
+            m = re.match(r"(?:\d+\s+)?([a-z0-9_]+)\(", l)
+            if m:
+                calls.append(m.group(1))
+        log.unlink()
+    return calls, data.decode()
+
+
+def explore_syscalls(ck: Check, writer: str, states, tmp_root: Path, worst: list, depth: int):
+    """syscall-level crash enumeration (strace fault injection) with the property's predicate only"""
+    import shutil as _sh
+
+    if _sh.which("strace") is None:
+        ck.notes.append("strace not available: syscall-level crash enumeration skipped")
+        return
+    WRITER[0], VARIANT[0] = writer, 0
+    frontier = []
+    for st in states:
+        d0 = Path(tempfile.mkdtemp(prefix="y-", dir=tmp_root))
+        materialise(d0, st, {"name": 1, "new": 0, "old": 0})
+        frontier.append((d0, st, []))
+    gen = 2
+    for level in range(1, depth + 1):
+        nxt, seen = [], set()
+        for d, st, hist in frontier:
+            calls, tail = run_write_strace(_clone(d, tmp_root), gen, None)
+            if not calls:
+                ck.notes.append("strace saw no system call (ptrace not permitted?): syscall-level enumeration skipped")
+                return
+            points, count = [], {}
+            for c in calls:  # crash before the i-th invocation of each traced call, in program order
+                count[c] = count.get(c, 0) + 1
+                points.append((c, count[c]))
+            for n, pt in enumerate(points + [None], 1):
+                d2 = _clone(d, tmp_root)
+                run_write_strace(d2, gen, pt)
+                got_st, _g = classify(d2, gen + 1)
+                h2 = hist + [{"from": st, "kill_before_syscall": list(pt) if pt else None, "position": n,
+                              "writer": writer, "variant": 0, "mode": "strace"}]
+                ck.case(key=("sys", writer, st, tuple(str(h.get("kill_before_syscall")) for h in h2)),
+                        sample={"writer": writer, "initial": st, "kill_before_syscall": pt, "syscalls": calls,
+                                "dir_after": got_st} if level == 1 and n == 2 else None,
+                        bucket=f"{writer}/syscall/depth{level}")
+                if not safe_pred(got_st):
+                    worst.append((h2, got_st))
+                if level < depth and got_st not in seen and pt is not None:
+                    seen.add(got_st)
+                    nxt.append((d2, got_st, h2))
+                else:
+                    shutil.rmtree(d2, ignore_errors=True)
+            shutil.rmtree(d, ignore_errors=True)
+        frontier = nxt
+        gen += 1
+    for d, _s, _h in frontier:
+        shutil.rmtree(d, ignore_errors=True)
+
+
 def collapse(events):
     """consecutive W:p events -> one (the model's writeChunk stands for any number of them)"""
     out = []
@@ -445,6 +568,13 @@ def run(ck: Check):
                 explore(ck, drv, writer, 0, 2 if ck.thorough() else 1, inv_states, tmp_root, worst)
             except Exception as e:  # the caller could not be constructed/driven: correspondence broken, not a crash
                 ck.mismatch("caller could not be driven", {"writer": writer, "error": f"{type(e).__name__}: {e}"})
+        # API-independent crash points: SIGKILL injected by strace at every file-related system call
+        sys_states = ["CAA", "CCC", "ACC"] if not ck.thorough() else [s for s in all_states if inv_pred(s)]
+        for writer in ("save_parameters", "Optimizer.save_full_state", "MCMC.save_full_state"):
+            try:
+                explore_syscalls(ck, writer, sys_states, tmp_root, worst, 2 if ck.thorough() or writer == "save_parameters" else 1)
+            except Exception as e:  # noqa: BLE001
+                ck.notes.append(f"syscall-level enumeration failed for {writer}: {type(e).__name__}: {e}")
     finally:
         WRITER[0], VARIANT[0] = "save_parameters", 0
         shutil.rmtree(tmp_root, ignore_errors=True)
@@ -454,12 +584,13 @@ def run(ck: Check):
     ck.extra["depth_of_consecutive_interrupted_writes"] = depth
     # ---- verdict
     if worst:
-        worst.sort(key=lambda x: (len(x[0]), sum((h["kill_after"] or 10**6) for h in x[0])))
+        worst.sort(key=lambda x: (len(x[0]), sum((h.get("kill_after") or h.get("position") or 10**6) for h in x[0])))
         hist, st = worst[0]
         what = ("checkpoint name refers to a truncated/corrupt file" if st[0] == "T" else "no complete checkpoint survives")
         ck.violation(
             hist[-1]["writer"] + ":" + ("truncated-name" if st[0] == "T" else "lost-checkpoint"),
-            f"{what} after crash history {[(h['from'], h['kill_after']) for h in hist]} of {hist[-1]['writer']} -> {st}",
+            f"{what} after crash history {[(h['from'], h.get('kill_after', h.get('kill_before_syscall'))) for h in hist]} "
+            f"({hist[-1].get('mode', 'python-level')} crash points) of {hist[-1]['writer']} -> {st}",
             {"history": hist, "dir_after": st, "broken_obligations": broken, "replay_cmd": "./check C18 --replay <this file>"},
         )
     elif not ok or ck.mismatches:
@@ -498,9 +629,12 @@ def replay(path: str) -> int:
         materialise(d, hist[0]["from"], {"name": 1, "new": 0, "old": 0})
         gen = 2
         for h in hist:
-            run_write(d, gen, h["kill_after"])
+            if h.get("mode") == "strace":
+                run_write_strace(d, gen, tuple(h["kill_before_syscall"]) if h["kill_before_syscall"] else None)
+            else:
+                run_write(d, gen, h["kill_after"])
             gen += 1
-            print("after crash at op", h["kill_after"], "->", classify(d, gen)[0])
+            print("after crash at", h.get("kill_after", h.get("kill_before_syscall")), "->", classify(d, gen)[0])
         st, _ = classify(d, gen)
         bad = not safe_pred(st)
         print("final directory state (name,new,old):", st, "VIOLATES" if bad else "ok")
